@@ -18,6 +18,7 @@ CONSTANTS
   BURNS = {1}
   DELAMTS = {1}
   MAXDEL = 2
+  MAXUPD = 0
   MAXJAIL = 0
   MAXEPOCHS = 3
   MAXOPS = 5
